@@ -274,7 +274,7 @@ func histInput(rr *core.Rand, p *ParserDef, cfg *Cfg, corpus [][]byte) []byte {
 		} else if rr.Intn(6) == 0 {
 			in = []byte("INVITE sip:a SIP/2.0\r\nVia: x\r\n" + []string{"P-Asserted-Identity: *\r\n", "P-Asserted-Identity: <sip:a>, *\r\n", "Contact: *\r\n"}[rr.Intn(3)] + "f: <sip:b>;tag=1\r\n\r\n")
 		} else if rr.Intn(3) > 0 {
-			in = gen.Msg(rr, gen.MsgOpts{MinHdrs: 1, MaxHdrs: 9, MultiNA: 60,
+			in = gen.Msg(rr, gen.MsgOpts{MinHdrs: 1, MaxHdrs: 9, MultiNA: 60, DupParams: true,
 				Kinds: []int{gen.HContact, gen.HContact, gen.HPAI, gen.HPAI, gen.HFrom, gen.HTo, gen.HCSeq, gen.HCallID, gen.HVia, gen.HExpires, gen.HOtherKind}}).Raw
 		} else {
 			in = gen.Mutate(rr, corpus[rr.Intn(len(corpus))], 3)
